@@ -51,9 +51,16 @@ pub fn run(case_json: &str) -> ! {
     if fam.runtime {
         warm_up(case.workers.max(1) as usize, case.pool.max(1) as usize);
     }
+    sched::set_weak(case.weak == 1 && fam.runtime);
     sched::start_exploring(case.sched.clone());
-    let out = (fam.run)(&case);
+    let mut out = (fam.run)(&case);
     sched::stop_exploring();
+    if case.weak == 1 && fam.runtime {
+        out.flags.push("store_buffering");
+        if sched::sb_delayed() > 0 {
+            out.flags.push("store_reordered_after_load");
+        }
+    }
     let nums: serde_json::Map<String, serde_json::Value> = out.nums.iter().map(|(k, v)| (k.to_string(), serde_json::json!(v))).collect();
     let report = serde_json::json!({
         "flags": out.flags,
